@@ -31,6 +31,7 @@ func main() {
 	one := flag.Int("one", -1, "execute only the scenario with this index, in-process, verbosely")
 	selftest := flag.Bool("selftest", false, "determinism self-test of the harness")
 	trace := flag.String("trace", "", "internal: print the trace digests of a scenario file (C24 child process)")
+	concurrent := flag.String("concurrent", "", "internal: run a C25 class-concurrent scenario file (race-detector build, child process)")
 	flag.Parse()
 
 	engine.PanicClassifier = machine.ClassifyStack
@@ -59,6 +60,9 @@ func main() {
 
 	if *trace != "" {
 		exit(props.TraceJSON(*trace))
+	}
+	if *concurrent != "" {
+		exit(props.ConcurrentJSON(*concurrent))
 	}
 	if *replay != "" {
 		sc, err := engine.LoadScenario(*replay)
